@@ -48,20 +48,12 @@ func c45(r *core.Run) {
 		return o != nil && o.Pkg() != nil && o.Pkg().Path() == mod+"/sema" && strings.HasPrefix(o.Name(), "Format") && strings.HasSuffix(o.Name(), "TypeID") ||
 			(o != nil && o.Pkg() != nil && o.Pkg().Path() == mod+"/sema" && o.Name() == "FormatIntersectionTypeIDWithSingleInterface")
 	}
-	got := map[string]int{}
-	for _, fn := range w.SrcFuncs() {
-		if fn.Parent() != nil {
-			continue
-		}
-		for _, c := range core.CallsTo(fn, true, isFormatter) {
-			got[core.SSAKey(fn)+" -> "+core.Callee(c).Name()]++
-		}
-	}
+	got, deep := callerCounts(w, isFormatter, func(o *types.Func) string { return o.Name() })
 	genCounts(r, "c45_formatter_callers", got)
 	var pinned map[string]int
 	if r.Table("c45_formatter_callers", &pinned) {
 		for k, n := range pinned {
-			r.Check(got[k] >= n, "R2.formatter", k, 0, "type ID is built by the shared helper", "this representation no longer builds its type ID through the shared sema helper (pinned "+itoa(n)+" call(s), now "+itoa(got[k])+"): IDs of the same type can diverge between representations")
+			r.Check(deep[k] >= n, "R2.formatter", k, 0, "type ID is built by the shared helper", "this representation no longer builds its type ID through the shared sema helper (pinned "+itoa(n)+" call(s), now "+itoa(deep[k])+"): IDs of the same type can diverge between representations")
 		}
 	}
 	r.Floor("R2.formatter", 20)
